@@ -18,7 +18,22 @@ CLAIMS = {
         design_ref="DESIGN.md §7 C16, Appendix A (invariant K)"),
 }
 
+CLAIMS["C01"] = dict(
+    text="Theorem C01_no_lost_wake_conc (FcProps/C01.lean): for join, try_join (array/Vec and tuple models), race, "
+         "race_ok (array, Vec, tuple variants), merge and zip, for every number of children, all child scripts (Pending "
+         "steps that invoke any handed-out waker of any child during the poll, results, injected panics) and all "
+         "histories (polls with arbitrary task wakers, wake-ups between polls incl. stale/repeated/after completion/after "
+         "drop, drop), in both waker strategies (std sub-wakers+readiness bits; direct = alloc-only/no_std and the "
+         "pass-through families), the monitor holds_C01 holds on the model trace: at every operation boundary with last "
+         "outcome Pending, an owed wake-up implies the latest task waker was woken; no waker invocation panics; a poll "
+         "unwinds only if a child panicked. Proof: kernel invariants (exact ready count, owes => bit, bit of a visited "
+         "waiting child => woken, parent waker = current task waker) by induction over the scan and the operation list, "
+         "once for every 'Conc' policy. chain, wait_until and the groups are covered by the same monitor on real traces + "
+         "trace equality with their models, not yet by theorem; nesting is exercised by the harness only.",
+    note=TB + " Not by theorem yet: chain, wait_until, FutureGroup, StreamGroup, one level of nesting.",
+    design_ref="DESIGN.md §7 C01, Appendix A")
+
 PENDING = "theorem not yet proved in this revision; the property is exercised by the shared correspondence runs but not claimed"
 NOT_APPLICABLE = {p: PENDING for p in
-                  ["C01", "C02", "C03", "C04", "C05", "C06", "C07", "C08", "C09", "C10", "C11", "C12", "C13", "C14",
+                  ["C02", "C03", "C04", "C05", "C06", "C07", "C08", "C09", "C10", "C11", "C12", "C13", "C14",
                    "C15", "C17", "C18", "C19", "C20"]}
